@@ -120,6 +120,8 @@ def k_args(run, case):
                 lambda: sync.matching_time_indices(t1, t2, 1e9, float(rng.normal())))
     elif fname.startswith("filters."):
         poses = [np.array(P) for P in A.poses_se3]
+        if rng.random() < .4:
+            poses = np.stack(poses)  # the pose sequence as one N x 4 x 4 array
         f = {"filters.filter_pairs_by_index": lambda: filters.filter_pairs_by_index(poses, 2, bool(rng.random() < .5)),
              "filters.filter_pairs_by_path": lambda: filters.filter_pairs_by_path(poses, 1.0, 0.5, bool(rng.random() < .5)),
              "filters.filter_pairs_by_angle": lambda: filters.filter_pairs_by_angle(poses, 0.5, 0.3, False, bool(rng.random() < .5)),
@@ -127,6 +129,8 @@ def k_args(run, case):
         guarded(run, case, fname, {"poses": poses}, f)
     elif fname == "id_pairs_from_delta":
         poses = [np.array(P) for P in A.poses_se3]
+        if rng.random() < .4:
+            poses = np.stack(poses)
         guarded(run, case, fname, {"poses": poses},
                 lambda: metrics.id_pairs_from_delta(poses, 1.0, [Unit.frames, Unit.meters, Unit.radians][rng.integers(3)], 0.5, bool(rng.random() < .5)))
     elif fname == "umeyama_alignment":
